@@ -32,6 +32,7 @@ import (
 	"github.com/elastos/Elastos.ELA/crypto"
 	"github.com/elastos/Elastos.ELA/dpos/state"
 
+	"verifharness/crkit"
 	"verifharness/elaenv"
 	"verifharness/lib"
 )
@@ -215,7 +216,7 @@ func main() {
 	dstate.DPoSV2ActiveHeight = 500 // heights used here are above it
 	fee := int64(params.CRConfiguration.RealWithdrawSingleFee)
 
-	st := lib.NewStats("C28", "real SpecialContextCheck of ReturnDepositCoin / ReturnCRDepositCoin / Voting(DposV2 content) / ReturnVotes on a directly populated dpos State and CR Committee (1-2 signers, unknown signers, mixed input addresses), amounts from {0,1,min deposit+-1,2^31,2^62+-k,2^63-1-k, fee+-1, random}; op sequences (<= 30) of deposit / penalty / unlock / return on one producer or CR candidate and of stake / vote / expire / return-votes on one stake address, applying the real state transitions; nontrivial = accepted check or sequence with at least one accepted return/vote; distinct by canonical case text")
+	st := lib.NewStats("C28", "real SpecialContextCheck of ReturnDepositCoin / ReturnCRDepositCoin / Voting(DposV2 content) / ReturnVotes on a directly populated dpos State and CR Committee (1-2 signers, unknown signers, mixed input addresses), amounts from {0,1,min deposit+-1,2^31,2^62+-k,2^63-1-k, fee+-1, random}; op sequences (<= 30) of deposit / penalty / unlock / return on one producer or CR candidate and of stake / vote / expire / return-votes on one stake address, applying the real state transitions; block-driven histories through State.ProcessBlock (3 DPoS v2 producers, 2 stake addresses: stake, vote with lock times of 2-7 blocks, renewals at lock-1..lock+2, return votes; 25-60 blocks) and through Committee.ProcessBlock (6 CR candidates, registrations, CR votes, unregistrations at committee change - lockup +-2, committee changes at 20 and 44, deposit returns; 49 blocks); nontrivial = accepted check or sequence with at least one accepted return/vote; distinct by canonical case text")
 	sh := &lib.Shards{Dir: run.Out, Imports: "From ELA Require Import model.C28_Deposit corr.C28_corr.", CaseType: "C28_corr.case",
 		Mismatch: "C28_corr.mismatches", Scope: "Z", PerShard: 150}
 	id := 0
@@ -900,6 +901,7 @@ func main() {
 			prod   int
 			key    elacommon.Uint256
 			known  bool
+			id     int
 			renew  uint32 // height at which a renewal is attempted: lock-1, lock, lock+1 (the expiry block), lock+2
 		}
 		planRenew := func(v *vote) {
@@ -915,6 +917,8 @@ func main() {
 			exU    *big.Int
 			votes  []*vote
 			blocks []string
+			lblk   []string
+			nvotes int
 			log    []string
 			acc    int
 		}
@@ -960,6 +964,7 @@ func main() {
 			var txs []interfaces.Transaction
 			renewed := map[*vote]bool{}
 			opsOf := map[*addrS][]string{}
+			txOf := map[*addrS]string{}
 			for _, a := range addrs {
 				if !r.Chance(60) {
 					continue
@@ -987,6 +992,7 @@ func main() {
 					if ok {
 						txs = append(txs, tx)
 						due.lock = newLock
+						txOf[a] = fmt.Sprintf("BRenew %d %d", due.id, newLock)
 						planRenew(due)
 						renewed[due] = true
 						a.acc++
@@ -998,6 +1004,7 @@ func main() {
 					txs = append(txs, tx)
 					a.exR.Add(a.exR, b(v))
 					opsOf[a] = append(opsOf[a], fmt.Sprintf("VStake %d", v))
+					txOf[a] = fmt.Sprintf("BStake %d", v)
 					a.log = append(a.log, fmt.Sprintf("h%d stake %d", h, v))
 				case r.Chance(65):
 					// vote: all unused rights, half of them, or one too many
@@ -1028,7 +1035,9 @@ func main() {
 								map[string]interface{}{"history": append([]string{}, a.log...), "exact_rights": a.exR.String(), "exact_used": a.exU.String()})
 						}
 						txs = append(txs, tx)
-						nv := &vote{amount: amt, lock: lock, prod: pi}
+						a.nvotes++
+						nv := &vote{amount: amt, lock: lock, prod: pi, id: a.nvotes}
+						txOf[a] = fmt.Sprintf("BVote %d %d %d", nv.id, amt, lock)
 						planRenew(nv)
 						a.votes = append(a.votes, nv)
 						a.exU.Add(a.exU, b(amt))
@@ -1054,6 +1063,7 @@ func main() {
 						txs = append(txs, tx)
 						a.exR.Sub(a.exR, b(value))
 						opsOf[a] = append(opsOf[a], fmt.Sprintf("VReturn [0;0;0] %d", value))
+						txOf[a] = fmt.Sprintf("BReturn [0;0;0] %d", value)
 						a.acc++
 					}
 				}
@@ -1077,6 +1087,11 @@ func main() {
 				R, U := int64(bs.DposV2VoteRights[a.addr]), int64(bs.UsedDposV2Votes[a.addr])
 				a.blocks = append(a.blocks, fmt.Sprintf("(%s,(%s,%s))", lib.CoqList(opsOf[a]), lib.CoqZi(R), lib.CoqZi(U)))
 				lk := locked(a)
+				bt := "None"
+				if t, ok := txOf[a]; ok {
+					bt = "(Some (" + t + "))"
+				}
+				a.lblk = append(a.lblk, fmt.Sprintf("(%d,%s,(%s,%s,%s))", h, bt, lib.CoqZi(R), lib.CoqZi(U), lib.CoqZi(lk)))
 				if b(R).Cmp(a.exR) != 0 || b(U).Cmp(a.exU) != 0 || R < 0 || U < 0 || U > R || lk != U {
 					st.Fail("VoteRights:block-history:used-votes-differ-from-locked-votes",
 						"after a block processed by State.ProcessBlock the DPoS v2 votes in use differ from the votes locked on producers / from the exact replay, exceed the vote rights, or a counter is negative",
@@ -1087,12 +1102,223 @@ func main() {
 		for _, a := range addrs {
 			i := next()
 			sh.Add(fmt.Sprintf("CVBlocks %d %d %s", i, fee, lib.CoqList(a.blocks)))
+			sh.Add(fmt.Sprintf("CLBlocks %d %d %s", i, fee, lib.CoqList(a.lblk)))
 			st.LogCase(run.Out, i, map[string]interface{}{"op": "vote-blocks", "history": a.log})
 			st.Count("vb|"+strings.Join(a.log, ";"), a.acc > 0, "vote-blocks")
 		}
 	}
 	for k := 0; k < run.N(40, 1500); k++ {
 		voteBlocks(rng.Fork())
+	}
+
+	// ---------------------------------------------------------------- block-driven CR deposit histories
+	// A standalone Committee driven through the real Committee.ProcessBlock: candidates
+	// register (5000 ELA locked), get votes, unregister at heights around
+	// (committee change - DepositLockupBlocks), committees change at heights 20 and 44,
+	// deposits are returned.  Every transaction passes the real SpecialContextCheck first.
+	crBlocks := func(r *lib.Rng, histID int) {
+		const ela = 100000000
+		const startH, lockup = 10, 3
+		p := config.GetDefaultParams()
+		cr := &p.CRConfiguration
+		sg := crkit.NewKey(uint64(histID), 99)
+		cr.MemberCount, cr.CRAgreementCount = 3, 2
+		cr.ProposalCRVotingPeriod, cr.ProposalPublicVotingPeriod = 4, 2
+		cr.CRVotingStartHeight, cr.CRCommitteeStartHeight = startH, 20
+		cr.DutyPeriod, cr.VotingPeriod, cr.CRClaimPeriod = 24, 8, 3
+		cr.DepositLockupBlocks = lockup
+		cr.CRClaimDPOSNodeStartHeight, cr.CRClaimDPOSNodePeriod = 200000000, 5
+		cr.ChangeCommitteeNewCRHeight = 0
+		cr.CRAssetsRectifyTransactionHeight = 200000000
+		cr.SecretaryGeneral = elacommon.BytesToHexString(sg.Pub)
+		p.CrossChainMonitorStartHeight = 200000000
+		p.DPoSV2StartHeight = 200000000
+		cr.CRCProposalWithdrawPayloadV1Height = 200000000
+		e := crkit.NewEnv(p)
+		e.Chain.SetState(state.NewState(p, nil, nil, nil, func() bool { return false }, nil, nil, nil, nil, nil, nil, nil))
+		cm := e.Committee
+		cs := cm.GetState()
+		changes := []uint32{20, 44}
+		const nCands = 6
+		type cand struct {
+			k        *crkit.Key
+			regAt    uint32
+			unregAt  uint32
+			returnAt uint32
+			regTx    interfaces.Transaction
+			favoured bool
+			exTotal  *big.Int
+		}
+		var cands []*cand
+		nonce := uint64(histID) << 20
+		nn := func() uint64 { nonce++; return nonce }
+		for j := 0; j < nCands; j++ {
+			c := &cand{k: crkit.NewKey(uint64(histID), j), exTotal: b(0)}
+			term := r.Intn(2) // registers for the first or for the second election
+			if j < 3 {
+				term = 0
+			}
+			change := changes[term]
+			c.regAt = change - 10 + uint32(r.Intn(3))
+			c.favoured = j < 3 || r.Chance(30) // gets most votes
+			if !c.favoured || r.Chance(25) {
+				// unregister around the height whose lockup ends at the committee change
+				c.unregAt = uint32(int(change) - lockup + r.Range(-2, 2))
+				if c.unregAt >= change {
+					c.unregAt = change - 1
+				}
+				c.returnAt = c.unregAt + lockup + uint32(r.Range(0, 4))
+			}
+			cands = append(cands, c)
+		}
+		note := func(tx interfaces.Transaction) {
+			for i, o := range tx.Outputs() {
+				e.Refs[common2.NewOutPoint(tx.Hash(), uint16(i)).ReferKey()] = *o
+			}
+		}
+		var log []string
+		acc := 0
+		var voteTx interfaces.Transaction
+		for h := uint32(startH); h <= 58; h++ {
+			txs := []interfaces.Transaction{crkit.Coinbase(nn(), []*common2.Output{
+				{Value: fx(300 * ela), ProgramHash: *p.CRConfiguration.CRExpensesProgramHash, Payload: new(outputpayload.DefaultOutput)}})}
+			add := func(what string, tx interfaces.Transaction, refs map[*common2.Input]common2.Output, check bool) bool {
+				if !check { // RegisterCR / UnregisterCR checks need a full ledger and are not what C28 is about
+					log = append(log, fmt.Sprintf("h%d %s", h, what))
+					txs = append(txs, tx)
+					return true
+				}
+				var ok, pk bool
+				var msg string
+				pk, pv := lib.Recover(func() {
+					tx.SetParameters(&transaction.TransactionParameters{Transaction: tx, BlockHeight: h, Config: p, BlockChain: e.Chain})
+					if refs == nil {
+						refs = map[*common2.Input]common2.Output{}
+					}
+					tx.(refSetter).SetReferences(refs)
+					if err, _ := tx.SpecialContextCheck(); err != nil {
+						msg = err.Error()
+						return
+					}
+					ok = true
+				})
+				if pk {
+					msg = fmt.Sprint(pv)
+				}
+				if pk {
+					st.Fail("SpecialContextCheck:panic", what+" check panicked: "+msg, nil)
+				}
+				log = append(log, fmt.Sprintf("h%d %s ok=%v %s", h, what, ok, msg))
+				if ok {
+					txs = append(txs, tx)
+					acc++
+				}
+				return ok
+			}
+			inVoting := cm.IsInVotingPeriod(h)
+			for j, c := range cands {
+				cd := cm.GetCandidate(c.k.CID)
+				switch {
+				case h == c.regAt && inVoting && !cm.ExistCR(c.k.Code):
+					tx := crkit.RegisterCR(c.k, fmt.Sprintf("n%d-%d-%d", histID, j, h), nn(), fx(5000*ela))
+					if add(fmt.Sprintf("registerCR c%d", j), tx, nil, false) {
+						c.regTx = tx
+						c.exTotal.Add(c.exTotal, b(5000*ela))
+					}
+				case h == c.unregAt && cd != nil && (cd.State == crstate.Pending || cd.State == crstate.Active) && inVoting:
+					add(fmt.Sprintf("unregisterCR c%d", j), crkit.UnregisterCR(c.k, nn()), nil, false)
+				case c.returnAt != 0 && h >= c.returnAt && c.regTx != nil && r.Chance(60):
+					in := &common2.Input{Previous: *common2.NewOutPoint(c.regTx.Hash(), 0)}
+					if _, ok := cs.DepositOutputs[in.ReferKey()]; !ok {
+						continue
+					}
+					out := int64(5000*ela - 10000)
+					tx := crkit.ReturnDeposit(c.k, nn(), []*common2.Input{in}, fx(out))
+					refs := map[*common2.Input]common2.Output{in: {Value: fx(5000 * ela), ProgramHash: c.k.Deposit}}
+					info := cs.DepositInfo[c.k.CID]
+					if add(fmt.Sprintf("returnDeposit c%d (total %d locked %d penalty %d)", j, info.TotalAmount, info.DepositAmount, info.Penalty), tx, refs, true) {
+						// oracle: withdrawn <= total - penalty - lock, the lock never counted below zero
+						lk := int64(info.DepositAmount)
+						if lk < 0 {
+							lk = 0
+						}
+						if 5000*ela > int64(info.TotalAmount)-int64(info.Penalty)-lk {
+							st.Fail("ReturnDeposit:accepted-overdraw", "CR block history: accepted ReturnCRDepositCoin withdraws more than total - penalty - locked deposit",
+								map[string]interface{}{"history": append([]string{}, log...)})
+						}
+						c.exTotal.Sub(c.exTotal, b(5000*ela))
+						c.regTx = nil
+					}
+				}
+			}
+			// votes in the last blocks of a voting period: the favoured candidates get most
+			if inVoting && (h == 17 || h == 19 || h == 41 || h == 43) {
+				var cv []outputpayload.CandidateVotes
+				for j, c := range cands {
+					cd := cm.GetCandidate(c.k.CID)
+					if cd != nil && cd.State == crstate.Active {
+						v := int64(1+j) * ela
+						if c.favoured {
+							v += 100 * ela
+						}
+						cv = append(cv, outputpayload.CandidateVotes{Candidate: c.k.CID.Bytes(), Votes: fx(v)})
+					}
+				}
+				if len(cv) > 0 {
+					var ins []*common2.Input
+					if voteTx != nil {
+						ins = append(ins, &common2.Input{Previous: *common2.NewOutPoint(voteTx.Hash(), 0)})
+					}
+					tx := crkit.VoteOutputTx(nn(), fx(5000*ela), []outputpayload.VoteContent{{VoteType: outputpayload.CRC, CandidateVotes: cv}}, ins, nil)
+					txs = append(txs, tx)
+					voteTx = tx
+					log = append(log, fmt.Sprintf("h%d voteCRC x%d", h, len(cv)))
+				}
+			}
+			for _, tx := range txs {
+				note(tx)
+			}
+			e.Process(h, txs)
+			for _, ch := range changes {
+				if h == ch {
+					log = append(log, fmt.Sprintf("h%d committee change: %d members", h, len(cm.GetMembersDIDs())))
+				}
+			}
+			// oracle after every block
+			for j, c := range cands {
+				info, ok := cs.DepositInfo[c.k.CID]
+				if !ok {
+					continue
+				}
+				av := cm.GetAvailableDepositAmount(c.k.CID)
+				cd := cm.GetCandidate(c.k.CID)
+				held := cd != nil && (cd.State == crstate.Pending || cd.State == crstate.Active)
+				bad, sig := "", ""
+				switch {
+				case info.DepositAmount < 0 || info.TotalAmount < 0 || info.Penalty < 0:
+					bad, sig = "a deposit counter is negative", "negative-counter"
+				case int64(info.DepositAmount)%(5000*ela) != 0:
+					bad, sig = "the locked deposit is not a multiple of the required deposit", "lock-not-multiple"
+				case av > info.TotalAmount-info.Penalty:
+					bad, sig = "the available amount exceeds total - penalty", "available-above-total"
+				case held && info.DepositAmount < 5000*ela:
+					bad, sig = "a registered (pending/active) candidate has less than the required deposit locked", "required-lock-missing"
+				case b(int64(info.TotalAmount)).Cmp(c.exTotal) != 0:
+					bad, sig = "the total differs from deposits minus returns", "total-diverges"
+				}
+				if bad != "" {
+					st.Fail("CRDeposit:block-history:"+sig,
+						"after a block processed by Committee.ProcessBlock: "+bad,
+						map[string]interface{}{"height": h, "candidate": j, "total": int64(info.TotalAmount), "locked": int64(info.DepositAmount),
+							"penalty": int64(info.Penalty), "available": int64(av), "history": append([]string{}, log...)})
+				}
+			}
+		}
+		st.LogCase(run.Out, next(), map[string]interface{}{"op": "cr-deposit-blocks", "history": log})
+		st.Count("crb|"+strings.Join(log, ";"), acc > 0, "cr-deposit-blocks")
+	}
+	for k := 0; k < run.N(60, 2000); k++ {
+		crBlocks(rng.Fork(), k+1)
 	}
 
 	st.Extra["beyond_2^62"] = beyond
